@@ -680,9 +680,8 @@ int close(int fd) {
     fibershim_close = (closeFnType)dlsym(RTLD_NEXT, "close");
   }
 
-  fiber_fd_closed(fd);
   if (fd_info && fd >= 0 && fd < max_fd) {
     fd_info[fd].flags_ = 0;
   }
-  return fibershim_close(fd);
+  return fiber_fd_close(fd, fibershim_close);
 }
